@@ -1,9 +1,84 @@
-"""Replay of failed obligations on the real code (DESIGN.md 2.3)."""
+"""Replay of failed obligations on the real code (DESIGN.md 2.3).
+
+Replay programs live in /verif/replay/harness/src/bin/*.rs and use the public API of the real crates
+(path dependency on /repo).  A program exits 1 and prints `REPRODUCED: <input>` when it exhibits the defect on
+the real code, 0 otherwise.  The replay never decides anything: the verdict is the verifier's.
+"""
+import os
+import re
+import shutil
+import tomllib
+
+from .common import REPO, SCRATCH_ROOT, VERIF, log, read, run, write
+
+HARNESS = os.path.join(VERIF, "replay", "harness")
+INDEX = os.path.join(VERIF, "replay", "index.toml")
+
+
+def _prepare():
+    """Materialise the harness crate in scratch (Cargo.toml points at the current /repo)."""
+    d = os.path.join(SCRATCH_ROOT, "replay-crate")
+    os.makedirs(os.path.join(d, "src", "bin"), exist_ok=True)
+    write(os.path.join(d, "Cargo.toml"), read(os.path.join(HARNESS, "Cargo.toml.in")).replace("@REPO@", REPO))
+    lock = os.path.join(REPO, "Cargo.lock")
+    if os.path.exists(lock) and not os.path.exists(os.path.join(d, "Cargo.lock")):
+        shutil.copy(lock, os.path.join(d, "Cargo.lock"))
+    src = os.path.join(HARNESS, "src", "bin")
+    for f in os.listdir(os.path.join(d, "src", "bin")):
+        os.remove(os.path.join(d, "src", "bin", f))
+    for f in os.listdir(src):
+        shutil.copy(os.path.join(src, f), os.path.join(d, "src", "bin", f))
+    return d
+
+
+def run_bin(name, profile="dev", timeout=900):
+    d = _prepare()
+    cmd = ["cargo", "run", "--offline", "-q", "--bin", name]
+    if profile == "release":
+        cmd.insert(2, "--release")
+    env = {"CARGO_TARGET_DIR": os.path.join(SCRATCH_ROOT, "replay-target"), "RUST_BACKTRACE": "0"}
+    rc, out, err, wall = run(cmd, cwd=d, env=env, timeout=timeout)
+    return rc, out, err, " ".join(cmd)
+
+
+def entries():
+    if not os.path.exists(INDEX):
+        return []
+    with open(INDEX, "rb") as f:
+        return tomllib.load(f).get("replay", [])
 
 
 def try_replay(pid, failure):
+    out = []
+    for e in entries():
+        if e.get("unit") != failure.unit or e.get("fn") != failure.fn or e.get("kind") != failure.kind:
+            continue
+        if e.get("anchor") and e["anchor"] not in failure.anchor:
+            continue
+        for prof in e.get("profiles", ["dev"]):
+            rc, so, se, cmd = run_bin(e["bin"], prof)
+            if rc == 101 and "could not compile" in se:
+                log("replay program did not compile:", se[-500:])
+                continue
+            rep = [l for l in so.split("\n") if l.startswith("REPRODUCED")]
+            if rc != 0 and rep:
+                out.append(f"program: replay/harness/src/bin/{e['bin']}.rs (profile {prof})")
+                out.append(f"command: cd <scratch>/replay-crate && {cmd}   [re-run: ./check --replay <this file>]")
+                out += rep
+                out.append(f"replay-bin: {e['bin']} {prof}")
+                return "\n".join(out)
     return ""
 
 
 def rerun(path):
-    return 0
+    """./check --replay <file>: re-run the recorded replay program against the current /repo."""
+    txt = read(path)
+    m = re.search(r"^replay-bin: (\S+) (\S+)$", txt, re.M)
+    if not m:
+        print("(this replay file carries no concrete program: no-failing-input-found)")
+        return 0
+    rc, so, se, cmd = run_bin(m.group(1), m.group(2))
+    print(so)
+    if rc != 0:
+        print(se[-1500:])
+    return 1 if rc != 0 else 0
